@@ -214,6 +214,27 @@ def check(run):
                      prog.where(prog.method('Cell', 'calculate_representation_hash')), witness=dict(b=b, depths=depths))
         run.evaluations += 1
 
+    # the same child in several reference slots (one object, or two objects with one hash): every slot contributes its depth and hash
+    for shape in ('x,x', 'x,y,x', 'x,x,x,x', 'x,x2', 'y,x,x2'):
+        it = mk(prog)
+        hx = Sym('HX', ty='bytes', n=32, key=('childhash', 'x'))
+        pool = {'x': cm.forge_ordinary_child(it, 0, depth=3, hash_=hx), 'y': cm.forge_ordinary_child(it, 1, depth=5), 'x2': cm.forge_ordinary_child(it, 2, depth=3, hash_=hx)}
+        kids = [pool[n_] for n_ in shape.split(',')]
+        try:
+            c = cm.new_cell(it, cm.tvm_bits(it, cm.data_bits(6)), kids)
+            want = expect_stream(6, [3 if n_ != 'y' else 5 for n_ in shape.split(',')])
+            hashes = [k.attrs['_hash'] for k in kids]
+            ok1, why1 = stream_matches(hash_parts(c), want, hashes)
+            h2 = cm.call_method(it, c, 'calculate_representation_hash')
+            ok2, why2 = stream_matches(cm.flatten_bytes(list(h2.a)) if isinstance(h2, Term) and h2.op == 'sha256' else None, want, hashes)
+            good = ok1 and ok2
+            why = ('cached hash: ' + why1 if not ok1 else 'recomputed representation: ' + why2) if not good else 'cached and recomputed streams list every slot'
+        except RaiseEx as e:
+            good, why = False, f'raises {e}'
+        run.check(good, 'D5', 'Cell.calculate_representation_hash[repeated child]' if not good else f'repeated-child[{shape}]', f'references [{shape}] (x2 = another object with the hash of x): {why}',
+                  prog.where(prog.method('Cell', 'get_representation')))
+        run.evaluations += 1
+
     # ---- D6 identity
     it = mk(prog)
     c1 = cm.forge_ordinary_child(it, 1)
